@@ -287,6 +287,37 @@ def expiry_boundaries(ctx, lives, per_life):
             ctx.nontriv(("expiry", life_s, kind, skew, it))
 
 
+def stale_entry_reuse(ctx, n):
+    """S is heard once (beacon / SHB: a neighbour; or a multi-hop packet), then nothing at all is received for more
+    than the lifetime - so no purge runs and the expired entry is still stored - and then a packet of S arrives: S is
+    known through that packet only (after a multi-hop packet: no neighbour), its old duplicate packet list is gone (a
+    replay of an old sequence number is accepted again), and the entry is the one the packet describes"""
+    for it in range(n):
+        life_s = ctx.rng.choice([1, 5, 20])
+        rs.VCLOCK.set_ms(1_700_000_000_000 + ctx.rng.randrange(0, 10 ** 9))
+        st = rs.Station(area_alg=ctx.rng.choice(["CBF", "SIMPLE"]), dpl_len=ctx.rng.choice([1, 8]), life_s=life_s)
+        sc = rs.Scenario(ctx.rng, st, n_sources=2, rich=True)
+        S = sc.sources[0]
+        first = KINDS[it % len(KINDS)]
+        evs = [sc.rx_event(first, src=S, tst=sc.now % M32, rhl=2, mhl=2)]
+        if ctx.rng.random() < 0.5:
+            evs.append(sc.rx_event(ctx.rng.choice(KINDS[2:]), src=S, tst=(sc.now + 1) % M32, rhl=2, mhl=2))
+        ms = life_s * 1000 * ctx.rng.choice([1, 2, 3]) + ctx.rng.choice([2, 50, 999])
+        evs.append({"ev": "tick", "ms": ms})
+        sc.now += ms
+        late = sc.rx_event(ctx.rng.choice(KINDS), src=S, tst=sc.now % M32, rhl=2, mhl=2)
+        evs.append(late)
+        old = [e for e in evs[:2] if e["ev"] == "rx" and "sn" in e]
+        if old and ctx.rng.random() < 0.5:     # replay of a packet of the first life of the entry
+            rp = dict(old[-1])
+            rp["now"], rp["dup_of"] = sc.now, True
+            evs.append(rp)
+        impl, mtrace, skipped = rs.run_history(ctx, st, evs)
+        oracle_history(ctx, st, evs, impl)
+        ctx.count(1, "stale_entry_then_" + late["kind"] + "_first_heard_by_" + first)
+        ctx.nontriv(("stale", it, first, late["kind"], ms))
+
+
 def run(ctx):
     ctx.rule = ("timestamp pairs on a boundary grid (2^k +- 2, wrap) plus seeded pairs; seeded single-station histories "
                 "(beacon/SHB/TSB/GBC/GAC/GUC/LS from 2-4 sources, duplicates, own-address packets, clock ticks 1 ms .. 45 s, "
@@ -298,9 +329,11 @@ def run(ctx):
     if ctx.tier == "quick":
         histories(ctx, 100, 80)
         expiry_boundaries(ctx, (1, 5, 20), 16)
+        stale_entry_reuse(ctx, 32)
     else:
         histories(ctx, 500, 150)
         expiry_boundaries(ctx, (1, 2, 5, 20, 60), 120)
+        stale_entry_reuse(ctx, 400)
     ctx.exhaustive = False
 
 
